@@ -46,6 +46,8 @@ def main():
                 pass
             failed = ev.get("coverage", {}).get("failed_obligations", [])
             hit = [f for f in failed if any(f.startswith(e) or e in f for e in m["expect"])]
+            if "standin" in m["expect"]:
+                hit = [l for l in r.stdout.split("\n") if l.startswith("VIOLATION") and "standin_" in l]
             ok = r.returncode == 1 and hit
             print(f"{'ok  ' if ok else 'MISS'} {m['id']:32s} {m['property']} exit={r.returncode} {time.time()-t0:5.1f}s failed={failed[:4]}")
             if not ok:
